@@ -164,7 +164,7 @@ def server(cx, nclients, nmsgs):
         cx.check(all(p.closed for p in ports) and srv.closed, 'server-close-closes-clients')
 
 
-HOSTS = ['localhost', '', '127.0.0.1', 'a-b.example.org', 'h' * 40]
+HOSTS = ['localhost', '', '127.0.0.1', 'a-b.example.org', 'h' * 40, 'Studio', 'NAS01.lan', ' spaced host ']
 BAD_ADDR = ['', ':', 'localhost', 'localhost:', ':abc', 'a:b:c', '::1:80', 'host:80:', 'host:8o', 'host:1.5',
             'host: ', 'host:０']
 
@@ -303,12 +303,36 @@ def model_validation(cx):
         cx.observe('diff', [(r, m) for r, m in zip(real, model) if r != m])
 
 
+@harness(labels=['burst-then-disconnect-nothing-lost'])
+def burst(cx):
+    """Concrete scale probe: a client sends a burst of messages and disconnects before the server reads."""
+    import mido
+    from mido.sockets import PortServer
+    n = [3, 256, 257, 700][cx.choice('count', 4)]
+    with Net() as net:
+        net.env.budget = 50
+        srv = PortServer('localhost', 9000)
+        cs = fakenet.queue_connection(srv._socket)
+        msgs = [mido.Message('note_on', note=i % 128, velocity=(i // 128) % 128) for i in range(n)]
+        cs.send([b for m in msgs for b in m.bytes()])
+        cs.close()
+        got = []
+        for _ in range(n + 5):
+            try:
+                m = srv.poll()
+            except Hang:
+                break
+            if m is not None:
+                got.append(m)
+        cx.check(len(got) == n and got == msgs, 'burst-then-disconnect-nothing-lost')
+
+
 BOUNDS = {
     'quick': 'streams of 1..3 messages over 8 kinds (symbolic contents incl. sysex) cut at a SYMBOLIC offset 0..total, every '
              'segmentation (a symbolic pause before each byte), then the peer disconnects: exactly the complete messages, '
              'iteration ends, port closed, descriptor released; close seen as EOF by the peer; send after peer close; '
              'PortServer with 0..2 clients x 0..2 messages, blocking and polling; format/parse address with the port symbolic over '
-             '+-2^20 and 5 hosts, 12 malformed addresses; the socket model is compared with real socket.socketpair() on a '
+             '+-2^20 and 8 hosts (mixed case, blanks), 12 malformed addresses; a burst of 3..700 messages followed by a disconnect (concrete probe); the socket model is compared with real socket.socketpair() on a '
              'battery of 8 scenarios on every run',
     'thorough': 'all ordered triples of the 8 kinds',
 }
@@ -335,6 +359,7 @@ def JOBS(tier):
         for nm in (0, 1, 2):
             jobs.append((server, {'nclients': nc, 'nmsgs': nm}, {}))
     jobs.append((addr, {}, {}))
+    jobs.append((burst, {}, {'cost': 50}))
     jobs.append((addr_invalid, {}, {}))
     jobs.append((model_validation, {}, {}))
     return jobs
